@@ -1955,7 +1955,7 @@ theorem c10_shape_router_Router_handleConn :
     Shapes.network_router_Router_handleConn =
    ["defer{", "c.Close", "c.Rx", "c.Tx", "traffic.updateRx", "traffic.updateTx", "wg.Done",
      "r.removeConnection", "verifC10Point", "}", "verifC10Point", "c.Remote", "c.Receive",
-     "verifC10Point", "r.Lock", "r.Unlock", "recv:paused", "r.Lock", "r.Unlock", "r.Closed",
+     "verifC10Point", "r.Lock", "r.Unlock", "recv:paused", "r.Closed",
      "r.triggerConnectionErrorHandlers", "r.triggerConnectionErrorHandlers",
      "r.triggerConnectionErrorHandlers", "verifC10Point", "msgTraffic.updateRx", "r.Dispatch"] := rfl
 
